@@ -90,6 +90,27 @@ def check(text, offset=0):
     return fails
 
 
+def check_other_file(text):
+    """verify(code, filename=...) for a file that is not the submission's main file"""
+    from pedal.core.report import Report
+    from pedal.core.submission import Submission
+    from pedal.source import verify
+    report = Report()
+    report.contextualize(Submission(files={'answer.py': 'x = 1\ny = 2\nz = 3'}, main_file='answer.py', main_code='x = 1\ny = 2\nz = 3'))
+    kind, val = parser_outcome(text)
+    try:
+        verify(text, filename='other.py', report=report)
+    except BaseException as e:
+        return [('never_raises', 'verify(code, filename="other.py") raised %s on %r (parser: %s)' % (type(e).__name__, text[:40], kind))]
+    syn = [f for f in report.feedback if f.label in ('syntax_error', 'indentation_error')]
+    if kind != 'ok' and len(syn) != 1:
+        return [('missing_syntax_feedback', 'parser rejects %r given as other.py but feedback labels are %r' % (
+            text[:40], [f.label for f in report.feedback]))]
+    if kind == 'ok' and syn:
+        return [('spurious_syntax_feedback', 'parser accepts %r given as other.py but a syntax error was attached' % text[:40])]
+    return []
+
+
 def bounded(arg):
     quick = arg.get('tier') == 'quick'
     rnd = random.Random(arg.get('seed', 0) * 13 + 1)
@@ -111,6 +132,10 @@ def bounded(arg):
                 elif kind == 'syntax' and val.lineno is None:
                     canon += ' (SyntaxError without a line)'
                 failures.append({'id': what, 'canon': canon, 'detail': detail, 'text': t[:200]})
+    for t in list(SPECIAL) + list(BASE):
+        evaluations += 1
+        for what, detail in check_other_file(t):
+            failures.append({'id': what, 'canon': what + ' (explicit other file)', 'detail': detail, 'text': t[:200]})
     # syntax errors inside an independent section carry whole-file line numbers
     from pedal.core.report import Report
     from pedal.core.submission import Submission
